@@ -181,7 +181,7 @@ def v1_valid_grid(rng, big=False):
     n = 2 if r < 0.5 else rng.randrange(2, 14)
     if big and r > 0.95:
         n = rng.choice([64, 5000, 32768])
-    idx = rng.choice([-4, 0, -100, 7, rng.randrange(-10 ** 6, 10 ** 6)])
+    idx = rng.choice([-4, 0, -100, 7, rng.randrange(-10 ** 6, 10 ** 6), 2 ** 30, -2 ** 30, 2 ** 31 - 70000, -2 ** 31])
     off = rng.uniform(-1e6, 1e6)
     g = []
     for _ in range(n):
